@@ -7,6 +7,8 @@ is checked against the declared bounds and the edited vector is compared with a 
 """
 import time
 
+import random
+
 from hypothesis import strategies as st
 
 from vf.core import hyp, lib, pool
@@ -98,7 +100,11 @@ def op_strategy(ref, max_ops):
         st.builds(lambda n, x: {'op': 'append-many', 'n': n, 'x': x}, st.sampled_from([3, 31, 32, 33, 127, 128, 254, 255, 256]), item),
     )
     init = objects.strategy_for(ref).map(lambda spec: spec['a'][0])
-    return st.fixed_dictionaries({'cls': st.just(ref), 'init': init, 'ops': st.lists(ops, min_size=1, max_size=max_ops)})
+    # how the initial vector is handed to the constructor (the library itself passes generators), and whether the
+    # history ends with an edit made *inside* an item (through the item's own fields / inner vector)
+    via = st.sampled_from(['list', 'list', 'list', 'tuple', 'generator', 'iter', 'map'])
+    return st.fixed_dictionaries({'cls': st.just(ref), 'init': init, 'ops': st.lists(ops, min_size=1, max_size=max_ops),
+                                  'via': via, 'nested_edit': st.sampled_from([None, None, None, 1, 2, 3])})
 
 
 # ---------------------------------------------------------------------------------------------------
@@ -188,6 +194,15 @@ def check_case(case):
     constructed = lib.call(cls, list(init))
     if not constructed.ok:
         return []            # not a valid initial vector: not a case
+    via = case.get('via', 'list')
+    if via != 'list':
+        items = list(init)
+        handed = {'tuple': tuple(items), 'generator': (item for item in items), 'iter': iter(items),
+                  'map': map(lambda item: item, items)}[via]
+        other = lib.call(cls, handed)
+        if not other.ok:
+            return [Finding('constructor-refuses-iterable/%s:%s' % (name, via), {'error': other.signature(), 'items': len(items)})]
+        constructed = other
     vector = constructed.value
     model = list(init)
     findings = []
@@ -309,10 +324,42 @@ def check_case(case):
             findings.append(Finding('reparse/%s:%s' % (name, kind), {'step': step, 'what': 'items differ'}))
             return findings
     check_case.touched_bound = touched_bound
+    check_case.nested = False
+    if not findings and case.get('nested_edit') and model:
+        findings.extend(_nested_edit_clause(cls, name, param, vector, model, case['nested_edit']))
     return findings
 
 
+def _nested_edit_clause(cls, name, param, vector, model, seed_value):
+    """Last step of a history: an item that sits in the vector is edited through its own fields / its own inner
+    vector.  The outer vector is then composed: the prefix must count the body, and the bytes must be those of a
+    vector freshly built from the same (edited) items and parse back to them."""
+    from vf.gen import edits  # pylint: disable=import-outside-toplevel
+    done = edits.nested_edits(vector, random.Random(seed_value), limit=1)
+    done = [d for d in done if d.startswith(name + '[')]      # an item of *this* vector, not of a vector inside it
+    if not done:
+        return []
+    check_case.nested = True
+    fresh = lib.call(cls, list(model))          # model holds the same item objects: they carry the edit
+    if not fresh.ok:
+        return []            # the edited items no longer fit this vector: not a state the clause talks about
+    expected = lib.call(fresh.value.compose)
+    composed = lib.call(vector.compose)
+    if not expected.ok:
+        return []
+    if not composed.ok:
+        return [Finding('compose-raises/%s:nested-edit' % name, {'edit': done, 'error': composed.signature()})]
+    data = bytes(composed.value)
+    width = param.item_num_size
+    if name != 'TlsHandshakeHelloRandomBytes' and width and int.from_bytes(data[:width], 'big') != len(data) - width:
+        return [Finding('prefix/%s:nested-edit' % name, {'edit': done, 'prefix': data[:width].hex(), 'body': len(data) - width})]
+    if data != bytes(expected.value):
+        return [Finding('fresh-eq/%s:nested-edit' % name, {'edit': done, 'what': 'compose differs from a freshly built vector'})]
+    return []
+
+
 check_case.touched_bound = False
+check_case.nested = False
 
 
 def _case_fn(case, stats):
@@ -324,6 +371,9 @@ def _case_fn(case, stats):
     kinds = {op['op'] for op in case['ops']}
     for kind in kinds:
         stats.labels['op:' + kind] += 1
+    stats.labels['init-via:' + case.get('via', 'list')] += 1
+    if check_case.nested:
+        stats.labels['ends-with-nested-edit'] += 1
     has_slice = bool(kinds & {'delslice', 'setslice'})
     refused = any(f.key.split('/')[0] in ('bounds', 'refusal-changed') for f in findings)
     if has_slice or refused or check_case.touched_bound:
